@@ -126,8 +126,12 @@ def release_bounded(p):
                         except SystemExit:
                             got, refused = {}, True
                         except BaseException as e:  # noqa: BLE001
-                            failures.append(dict(rows=rws, start=start, stop=stop, continuous=continuous, freq=freq, what=f"raised {type(e).__name__}: {e}"))
-                            continue
+                            from .refusal import deliberate
+
+                            if not deliberate(e):
+                                failures.append(dict(rows=rws, start=start, stop=stop, continuous=continuous, freq=freq, what=f"raised {type(e).__name__}: {e}"))
+                                continue
+                            got, refused = {}, True
                         exp = {t: v for t, v in exp.items() if v}
                         if refused:
                             # a set-up without any release row in the window may be refused (C20); with particles it must not
